@@ -815,6 +815,17 @@ func (vc *VC) execInstr(fr *Frame, in ssa.Instruction) {
 			fr.vals[in] = x.Tuple[in.Field]
 			return
 		}
+		if vc.isOpaqueStruct(in.X.Type()) {
+			// field of an opaque dependency struct: an uninterpreted projection
+			acc := vc.accessor(in.X.Type(), f.Name())
+			if !vc.declared[acc] {
+				vc.declare(acc, fmt.Sprintf("(declare-fun %s (%s) %s)", acc, vc.sortOf(in.X.Type()), vc.sortOf(f.Type())))
+			}
+			v := &Val{T: fmt.Sprintf("(%s %s)", acc, x.T), Ty: f.Type()}
+			vc.assume(vc.rangeFact(v.T, v.Ty))
+			fr.vals[in] = v
+			return
+		}
 		fr.vals[in] = &Val{T: fmt.Sprintf("(%s %s)", vc.accessor(in.X.Type(), f.Name()), x.T), Ty: f.Type()}
 	case *ssa.IndexAddr:
 		fr.vals[in] = vc.indexAddr(fr, in, pos)
